@@ -401,7 +401,7 @@ pub fn main(args: Args) -> i32 {
     run(1, 1);
     run(2, 1);
     if args.tier == Tier::Thorough {
-        run(3, 41);
+        run(3, 13);
     }
     let g = gen::Gen::new(opts(2));
     acc.sample(json!({"program": g.program(123_456).source(), "contexts": 3}));
@@ -412,7 +412,7 @@ pub fn main(args: Args) -> i32 {
             level: "exploration",
             tier: args.tier,
             seed: args.seed,
-            rule: format!("every program of the depth-1 and depth-2 spaces of G (single template, loop controls){} x 3 contexts rendered by the engine and by the reference interpreter R (independent tree walker over its own value type: scoping per construct, per-iteration loop scope, macro closures with definition-frame values, argument binding with defaults and keywords, call blocks, loop recursion, for-else, loop filters, unpacking, break/continue); oracle: identical output, or both fail, and an immediate second render of the same template and context gives the same result; plus the loop object: every field (index, index0, revindex, revindex0, first, last, length, previtem, nextitem) printed in every iteration for 11 iterated sequence kinds x lengths 0..4 against directly computed values; plus the closure family (depth label d0): 4 name/outer-binding cases x 4 assignment forms x 16 enclosing constructs (bare, if/else arms taken and not, for/else with 0 or 1 iterations, loop else bodies reading names the loop bound as target / in its body / under a rejecting filter, with, filter, set block, autoescape, nested ifs) x 4 holders (macro called with both truth values, outer value changed after declaration, call block in a loop, macro in a macro), each reading the name inside the construct and, in one of two variants, after it; plus the loop-filter family: 8 filter expressions naming `loop`, the enclosing target or outer names x 6 constructs around the filtered loop x (inside one loop, inside two, at the top). distinct non-trivial = (program, context) pairs on which engine and reference agree on a successful render", if args.tier == Tier::Thorough { " and every 41st program of depth 3" } else { "" }),
+            rule: format!("every program of the depth-1 and depth-2 spaces of G (single template, loop controls){} x 3 contexts rendered by the engine and by the reference interpreter R (independent tree walker over its own value type: scoping per construct, per-iteration loop scope, macro closures with definition-frame values, argument binding with defaults and keywords, call blocks, loop recursion, for-else, loop filters, unpacking, break/continue); oracle: identical output, or both fail, and an immediate second render of the same template and context gives the same result; plus the loop object: every field (index, index0, revindex, revindex0, first, last, length, previtem, nextitem) printed in every iteration for 11 iterated sequence kinds x lengths 0..4 against directly computed values; plus the closure family (depth label d0): 4 name/outer-binding cases x 4 assignment forms x 16 enclosing constructs (bare, if/else arms taken and not, for/else with 0 or 1 iterations, loop else bodies reading names the loop bound as target / in its body / under a rejecting filter, with, filter, set block, autoescape, nested ifs) x 4 holders (macro called with both truth values, outer value changed after declaration, call block in a loop, macro in a macro), each reading the name inside the construct and, in one of two variants, after it; plus the loop-filter family: 8 filter expressions naming `loop`, the enclosing target or outer names x 6 constructs around the filtered loop x (inside one loop, inside two, at the top). distinct non-trivial = (program, context) pairs on which engine and reference agree on a successful render", if args.tier == Tier::Thorough { " and every 13th program of depth 3" } else { "" }),
             exhaustive: true,
             bound: json!({"depth_full": 2}),
             assumptions: vec![
